@@ -636,6 +636,9 @@ def _emissions(run: Run, mod: Module, fn: FuncInfo, records: List[Any]) -> bool:
 
 M = "d42/migration/migrate_v1_to_v2.py"
 MUTANTS = [
+    {"name": "a migration target is re-exported under `if TYPE_CHECKING:` only", "rule": "TARGETS-RESOLVE",
+     "edits": [("d42/utils/__init__.py", "from ..declaration._is_ellipsis import EllipsisType, TypeOrEllipsis, is_ellipsis",
+                "from typing import TYPE_CHECKING\n\nfrom ..declaration._is_ellipsis import is_ellipsis\n\nif TYPE_CHECKING:\n    from ..declaration._is_ellipsis import EllipsisType, TypeOrEllipsis")]},
     {"name": "generated lines keep the module's CRLF but only \\n is stripped when joining", "rule": "SPAN-ONELINE",
      "edits": [(M, "    replacements = []\n", "    replacements = []\n    eol = \"\\r\\n\" if \"\\r\\n\" in source_code else \"\\n\"\n"),
                (M, "replacement_lines.append(f'from {new_module} import {names_str}\\n')", "replacement_lines.append(f'from {new_module} import {names_str}{eol}')"),
